@@ -83,15 +83,15 @@ type StepRecord struct {
 
 // Exec executes one variant (a history) against one world.
 type Exec struct {
-	Env     *Env
-	Sc      *Scenario
-	Variant string
-	Root    string
-	W       *wk.Worker
-	Model   *CacheModel
-	Viol    []Violation
-	Steps   []*StepRecord
-	step    int
+	Env        *Env
+	Sc         *Scenario
+	Variant    string
+	Root       string
+	W          *wk.Worker
+	Model      *CacheModel
+	Viol       []Violation
+	Steps      []*StepRecord
+	step       int
 	clockTicks int
 	// twoPass: a run with an unrecorded first pass happened (see violate)
 	twoPass bool
@@ -158,6 +158,9 @@ func (x *Exec) writeWithClock(path string, content []byte, policy string) error 
 	var before time.Time
 	if st, err := os.Stat(path); err == nil {
 		before = st.ModTime()
+		if st.Mode().Perm()&0o200 == 0 {
+			_ = os.Chmod(path, 0o644) // (the harness edits as the owner would: after making the file writable)
+		}
 	}
 	if err := os.WriteFile(path, content, 0o644); err != nil {
 		return err
@@ -304,6 +307,37 @@ func (x *Exec) Do(op Op) error {
 				return infra("linkout: %v", err)
 			}
 			x.Env.Stats.Add("op/output-replaced-by-symlink", 1)
+		}
+	case "protect", "outclock":
+		// the generated files of package K become read-only (a read-only checkout, files copied out of the
+		// module cache, chmod -R a-w), or their clocks say "future"/"old" (written by a machine whose clock
+		// is ahead, restored from an archive)
+		if op.K < 0 || op.K >= len(m.Pkgs) {
+			return infra("%s: no package %d", op.Kind, op.K)
+		}
+		dir := x.pkgDir(op.K)
+		ents, _ := os.ReadDir(dir)
+		for _, e := range ents {
+			if !e.Type().IsRegular() || !strings.HasPrefix(e.Name(), x.Sc.Base+".") {
+				continue
+			}
+			p := filepath.Join(dir, e.Name())
+			if op.Kind == "protect" {
+				if err := os.Chmod(p, 0o444); err != nil {
+					return infra("protect: %v", err)
+				}
+				x.Env.Stats.Add("fault/output-read-only", 1)
+				continue
+			}
+			x.clockTicks++
+			t := time.Date(2037, 2, 3, 4, 5, 6, 0, time.UTC).Add(time.Duration(x.clockTicks) * time.Second)
+			if op.How == "old" {
+				t = time.Date(2001, 2, 3, 4, 5, 6, 0, time.UTC).Add(time.Duration(x.clockTicks) * time.Second)
+			}
+			if err := os.Chtimes(p, t, t); err != nil {
+				return infra("outclock: %v", err)
+			}
+			x.Env.Stats.Add("fault/clock-output-"+map[bool]string{true: "old", false: "future"}[op.How == "old"], 1)
 		}
 	case "break":
 		// make the load fail: a syntax error in a source file or a broken go.mod
